@@ -78,6 +78,8 @@ def gen_sdl(rng):
         m_lines = []
         for i in range(rng.randint(1, 3)):
             name = rng.choice(["createItem", "deleteItem", "rename", "tag"]) + str(i)
+            if i == 0 and rng.random() < 0.3:
+                name = queries[0]  # the same field name under both root types
             text, _ = field(name)
             m_lines.append(text)
             mutations.append(name)
